@@ -33,6 +33,9 @@ def run_one(rid):
         shutil.copytree(os.path.join(REPO, "dask_array"), os.path.join(d, "dask_array"), ignore=shutil.ignore_patterns("__pycache__", "*.pyc", "*.so"))
         if os.path.isfile(os.path.join(REPO, "pyproject.toml")):
             shutil.copy(os.path.join(REPO, "pyproject.toml"), d)
+        from sa.selftest import copy_native_sources
+
+        copy_native_sources(REPO, d)
         p = subprocess.run(["patch", "-p1", "-s", "-i", os.path.join(BASE, rid, "patch.diff")], cwd=d, capture_output=True, text=True)
         if p.returncode != 0:
             return rid, {"error": "patch does not apply: " + (p.stdout + p.stderr)[-200:]}
